@@ -68,9 +68,9 @@ PROPS = {
         assumptions=["time stamps are those of the verif event log (monotonic clock, taken under the log's mutex at the hook)"],
     ),
     "C06": dict(
-        runs=[bp_sys("C06", 50, 1500)],
+        runs=[bp_sys("C06", 100, 2000)],
         rule="whole-processor runs with 1-5 concurrent callers whose requests are merged and split across batches, injected export failures "
-             "(40% of exports), cancellations at random points; per shard the apportioning (waiter, count) of every send is compared with the model, "
+             "(40% of exports), cancellations at random points, a third of the runs in merge-and-cancel mode (several callers' small requests merged into one slow export while some of their contexts end); per shard the apportioning (waiter, count) of every send is compared with the model, "
              "per call the responses delivered to its channel are replayed through the waitForItems model and compared with what the call returned; per shard that ended with the final flush "
              "the responses every caller really received are compared (as multisets) with those Batch/EndToEnd.v derives from the shard's history and the real export outcomes (e2e_mismatch), "
              "and must cover exactly the caller's items (e2e_propfail)",
